@@ -8,7 +8,7 @@ from checks import ustr_common as U
 
 CTOR_ALPHA = [0, 47, 97, 255]
 PATH_ALPHA = [47, 97, 255]
-PATH_STRING_OPS = ["path_join", "path_join_fmt", "path_join_fmt_split", "parent_path", "path_file_name"]
+PATH_STRING_OPS = ["path_join", "path_join_fmt", "path_join_fmt_split", "path_join_fmt_chars", "parent_path", "path_file_name"]
 # judged exactly (stored bytes = operand + NUL), not only for termination
 EXACT_PAIR_OPS = ["string_from_unixstr"]
 
@@ -75,6 +75,10 @@ def run(tier):
         body = [97 + (k % 5) for k in range(n)]
         cv.append({"b": body})
         cv.append({"b": body + [0]})
+    # valid multi-byte UTF-8 texts (the &str / format entry points only run on valid UTF-8)
+    toks = [[97], [47], [195, 169], [195, 191], [194, 128], [230, 151, 165], [240, 159, 152, 128], [46]]
+    for _ in range(n_rand // 2):
+        cv.append({"b": sum((rng.choice(toks) for _ in range(rng.randint(1, 12))), [])})
     for _ in range(n_rand):
         n = rng.randint(0, L)
         b = [rng.choice([97, 98, 47, 200, 255]) for _ in range(n)]
